@@ -127,6 +127,15 @@ CHECKS["C08"] = dict(
           "oracles on flat oriented meshes; termination of SuperLU on the singular system is not covered (known finding F17) (partial)."),
     design="6/C08", technique="Coq proof parametric in the solver oracle + in-Coq certificate check")
 
+CHECKS["C03"] = dict(
+    text=("Theorems over R about the pencil (A, B) of C01/C02: B positive definite (full and lumped), every eigenvalue >= 0 (Rayleigh "
+          "quotient), constants are eigenvectors for 0, eigenvectors of distinct eigenvalues are B-orthogonal, the shift-invert operator "
+          "A - sigma B (sigma < 0) is positive definite and its eigenpairs map back via lambda = sigma + 1/nu. ARPACK/SuperLU are oracles: "
+          "each returned (w, V) is verified inside Coq against the model's A, B (residual of A v = w B v, V^T B V = I, ascending) and "
+          "against the dense reference spectrum / component count in the Python oracle. Completeness of Lanczos on highly degenerate "
+          "spectra is not covered (known finding F18) (partial)."),
+    design="6/C03", technique="Coq proof over R (bilinear-form arguments) + in-Coq certificate check of returned eigenpairs")
+
 NOT_YET = {}
 
 
